@@ -294,7 +294,7 @@ func (f verifFI) Name() string       { return filepath.Base(f.n.path) }
 func (f verifFI) Size() int64        { return 0 }
 func (f verifFI) ModTime() time.Time { return time.Time{} }
 func (f verifFI) IsDir() bool        { return f.n.kind == nDir }
-func (f verifFI) Sys() interface{}           { return nil }
+func (f verifFI) Sys() interface{}   { return nil }
 func (f verifFI) Mode() fs.FileMode {
 	switch f.n.kind {
 	case nDir:
